@@ -384,6 +384,23 @@ func (ps *pathState) symConv(dst types.BasicKind, x sym) value {
 		if x.t.sort.K == SFP {
 			return mkval(dst, ts.FToBV(x.t, dw, dsigned))
 		}
+		if ps.probMode {
+			// exact truncation toward zero: v <= x < v+1 (x >= 0), v-1 < x <= v (x < 0)
+			key := fmt.Sprintf("f2i%d:%d", dw, x.t.id)
+			if v, ok := ps.memo[key]; ok {
+				return v
+			}
+			v := ts.FreshVar("trunc", bvSort(dw))
+			vr := ts.ToReal(ts.Bv2Int(v, dsigned))
+			one := ts.RealF(1)
+			nonneg := ts.RCmp(OpRLe, ts.RealF(0), x.t)
+			ps.addPC(ts.Ite(nonneg,
+				ts.And(ts.RCmp(OpRLe, vr, x.t), ts.RCmp(OpRLt, x.t, ts.RAdd(vr, one))),
+				ts.And(ts.RCmp(OpRLt, ts.RSub(vr, one), x.t), ts.RCmp(OpRLe, x.t, vr))))
+			res := mkval(dst, v)
+			ps.memo[key] = res
+			return res
+		}
 		// real -> int: truncation toward zero, uninterpreted beyond congruence
 		return mkval(dst, ts.UF(fmt.Sprintf("f2i%d", dw), bvSort(dw), x.t))
 	case x.k == types.Float64 && dst == types.Float32:
